@@ -62,7 +62,8 @@ class Gen:
             return se.Str(ls, null_term=nt), lambda r: r.choice(["", "abc", "héllo", "x" * 40]), False
         if k == "strfixed":
             n = rng.choice([4, 16])
-            return se.StrFixed(n), lambda r, n=n: r.choice(["", "ab", "z" * (n - 1)]), False
+            # (NUL pads the field at the end; a NUL inside the text is a character like any other, as is a non-ASCII one)
+            return se.StrFixed(n), lambda r, n=n: r.choice(["", "ab", "z" * (n - 1), "a\x00b"[:max(n - 1, 1)], "\x00x"[:n], "z" * n, "é"[:n // 2]]), False
         if k == "cstr":
             return se.CStr(), lambda r: r.choice(["", "abc", "héllo"]), False
         if k == "uuid":
